@@ -1,6 +1,6 @@
 """main.py — entry point behind /verif/check:  check <Cxx> [--thorough] [--replay file]"""
 from __future__ import annotations
-import sys, os, json, time, importlib, hashlib, random
+import sys, os, json, time, importlib, hashlib, random, traceback
 from pathlib import Path
 
 sys.path.insert(0, str(Path(__file__).parent))
@@ -107,7 +107,12 @@ def main(argv):
             extra_random = b[1]
             b = b[0]
         if ex is not None and b == "exhaustive":
-            cases = list(ex(tier) or [])
+            try:
+                cases = list(ex(tier) or [])
+            except Exception as e:      # an enumeration that reads implementation internals must not crash the check
+                cases = []
+                all_findings.append((sl, "disagreement", {"enumeration": sl.name},
+                                     "harness exception while enumerating the cases: " + "".join(traceback.format_exception_only(type(e), e))[-400:]))
             parts.append(runner.run_slice(sl, seed, 0, tier, procs, cases=cases))
             rep["exhaustive"] = extra_random == 0
             if extra_random:
@@ -146,8 +151,14 @@ def main(argv):
             proof_replay = runner.write_replay(prop, payload)
         else:
             proof_replay = None
-        viol = [(sl, k, c, d) for sl, k, c, d in all_findings if k == "violation" or (k == "disagreement" and sl.promote_disagreement)]
-        disag = [(sl, k, c, d) for sl, k, c, d in all_findings if not (k == "violation" or (k == "disagreement" and sl.promote_disagreement))]
+        def harness_side(d):
+            # trouble of the checking machinery itself (an exception in the harness, the model driver, a time-out under load):
+            # never a concrete witness against the implementation, whatever the slice
+            return str(d).startswith(("harness exception", "model error", "case timed out", "worker process died"))
+        def promoted(sl, k, d):
+            return k == "violation" or (k == "disagreement" and sl.promote_disagreement and not harness_side(d))
+        viol = [(sl, k, c, d) for sl, k, c, d in all_findings if promoted(sl, k, d)]
+        disag = [(sl, k, c, d) for sl, k, c, d in all_findings if not promoted(sl, k, d)]
         reported = 0
         for sl, kind, case, detail in viol:
             if reported >= 3:
